@@ -203,11 +203,19 @@ EXC_PARENT = {
     'RegexError': 'Exception',
     'StopIteration': 'Exception',
     'OtherException': 'Exception',       # any Exception subclass not otherwise listed
+    'SyntaxError': 'Exception', 'IndentationError': 'SyntaxError', 'NameError': 'Exception', 'OSError': 'Exception',
+    'FileNotFoundError': 'OSError', 'PermissionError': 'OSError', 'NotImplementedError': 'RuntimeError',
+    'RecursionError': 'RuntimeError', 'AssertionError': 'Exception', 'ImportError': 'Exception',
+    'ModuleNotFoundError': 'ImportError', 'UnicodeError': 'ValueError', 'MemoryError': 'Exception', 'BufferError': 'Exception',
+    'EOFError': 'Exception', 'FloatingPointError': 'ArithmeticError', 'Warning': 'Exception',
 }
 EXC_ID = {}
 
 
 def register_exception(name, parent):
+    if parent is not None and parent not in EXC_PARENT:
+        # a base the table does not know: cannot be shown to be an ordinary Exception
+        register_exception(parent, 'BaseException')
     if name not in EXC_PARENT:
         EXC_PARENT[name] = parent
     if name not in EXC_ID:
